@@ -24,7 +24,7 @@
 (* 6.3.3-6.3.5, 2.3.1.1 (CREATE/DELETE/RENAME, UIDs) which the storage     *)
 (* implements, doc comments of go-imap-sql (DeleteUser).                   *)
 (***************************************************************************)
-EXTENDS Naturals, Sequences, FiniteSets
+EXTENDS Naturals, Sequences, FiniteSets, TLC
 
 (* ---- names -------------------------------------------------------------*)
 (* spellings of account names used on the command line:                    *)
@@ -77,7 +77,10 @@ MaxOf(S) == CHOOSE x \in S : \A y \in S : y <= x
 Rank(S, x) == Cardinality({y \in S : y < x}) + 1
 Nth(S, k) == CHOOSE x \in S : Rank(S, x) = k
 
-NewMbox(ac, n, spc, uv) == [acct |-> ac, name |-> n, spc |-> spc, uv |-> uv, next |-> 1]
+(* UIDVALIDITY of a mailbox the model creates: a fresh name "n<k>"; what the *)
+(* storage really drew (observed snapshots carry "u<value>") is not         *)
+(* predictable, only that it must be new for that mailbox name              *)
+NewMbox(ac, n, spc, k) == [acct |-> ac, name |-> n, spc |-> spc, uv |-> "n" \o ToString(k), next |-> 1]
 
 (* mailboxes created by "create n": the missing parents, shortest first,   *)
 (* then n itself; UIDVALIDITY generations are numbered in creation order   *)
@@ -305,7 +308,6 @@ StateViol(s) ==
 \cup (IF \E a \in s.accts : ~HasMbox(s, a, INBOX) THEN {"NoInbox"} ELSE {})
 \cup (IF \E m \in s.mboxes : m.acct \notin s.accts THEN {"OrphanMailbox"} ELSE {})
 \cup (IF \E m1, m2 \in s.mboxes : m1 # m2 /\ m1.acct = m2.acct /\ m1.name = m2.name THEN {"DuplicateMailbox"} ELSE {})
-\cup (IF \E m1, m2 \in s.mboxes : m1 # m2 /\ m1.uv = m2.uv THEN {"UidValidityShared"} ELSE {})
 \cup (IF \E x \in s.msgs : ~HasMbox(s, x.acct, x.mbox) THEN {"OrphanMessage"} ELSE {})
 \cup (IF \E x \in s.msgs : HasMbox(s, x.acct, x.mbox) /\ x.uid >= MboxOf(s, x.acct, x.mbox).next
       THEN {"UidNotBelowNext"} ELSE {})
@@ -326,24 +328,48 @@ UidReused(seen, s) ==
 Fresh(c, b, a) ==
   LET mine == {m \in a.mboxes : m.acct \notin b.accts} IN
   /\ \A x \in a.msgs : x.acct \in b.accts
-  /\ \A m \in mine : m.next = 1 /\ m.uv > b.nuv
+  /\ \A m \in mine : m.next = 1
   /\ {m.name : m \in mine} = {INBOX} \cup (IF c.su THEN {<<DefaultSpecial[i]>> : i \in 1..5} ELSE {})
 (* the messages outside the mailbox(es) a message command names            *)
 Others(c, x) == {y \in x.msgs : ~(y.mbox \in {c.mb, c.mb2} /\ Canon(c.sp) = y.acct)}
+
+(* mailboxes predicted (pred) against observed (ob): equal, except that    *)
+(* the UIDVALIDITY of a mailbox created by this step is whatever the       *)
+(* storage drew                                                            *)
+Strip(m) == [acct |-> m.acct, name |-> m.name, spc |-> m.spc, next |-> m.next]
+FreshUv(before, pred) == {m.uv : m \in pred} \ {m.uv : m \in before}
+MatchMboxes(before, pred, ob) ==
+  /\ {Strip(m) : m \in pred} = {Strip(m) : m \in ob}
+  /\ Cardinality(pred) = Cardinality(ob)
+  /\ \A m \in pred : m.uv \notin FreshUv(before, pred) => m \in ob
+SameSnap(before, pred, ob) ==
+  /\ pred.creds = ob.creds /\ pred.auth = ob.auth /\ pred.accts = ob.accts /\ pred.reach = ob.reach
+  /\ pred.msgs = ob.msgs /\ MatchMboxes(before.mboxes, pred.mboxes, ob.mboxes)
+(* a mailbox created by this step must not get a UIDVALIDITY that the same *)
+(* mailbox name had before (uvs = every (account, name, UIDVALIDITY) seen) *)
+UvOf(s) == {[acct |-> m.acct, name |-> m.name, uv |-> m.uv] : m \in s.mboxes}
+UvRecycled(uvs, c, b, a) ==
+  LET e == Step(c, b, {})
+      fresh == {[acct |-> m.acct, name |-> m.name] : m \in {x \in e.s.mboxes : x.uv \in FreshUv(b.mboxes, e.s.mboxes)}} IN
+  \E m \in a.mboxes : /\ [acct |-> m.acct, name |-> m.name] \in fresh
+                       /\ [acct |-> m.acct, name |-> m.name, uv |-> m.uv] \in uvs
+
+(* nuv is a counter of the model only *)
+Same(a, b) == [a EXCEPT !.nuv = 0] = [b EXCEPT !.nuv = 0]
 
 (* ---- judging one logged step -------------------------------------------*)
 (* c: command, res: "ok"/"fail" as reported, ez: exit status zero,         *)
 (* b / a: snapshots before / after                                         *)
 StepViol(c, res, ez, b, a) ==
   LET e == Step(c, b, {}) IN
-     (IF res = "fail" /\ a # b THEN {"FailedButChanged"} ELSE {})
-\cup (IF (c.k \in {"CredsRemove", "AcctRemove", "MboxRemove", "MsgRemove"}) /\ c.sp # "" /\ ~Yes(c.cf) /\ a # b
+     (IF res = "fail" /\ ~Same(a, b) THEN {"FailedButChanged"} ELSE {})
+\cup (IF (c.k \in {"CredsRemove", "AcctRemove", "MboxRemove", "MsgRemove"}) /\ c.sp # "" /\ ~Yes(c.cf) /\ ~Same(a, b)
       THEN {"DestroyedOnNo"} ELSE {})
 \cup (IF (res = "fail") = ez THEN {"ExitStatus"} ELSE {})
 \cup (IF res # e.res THEN {"Result:" \o c.k} ELSE {})
 \cup (IF res = "ok" /\ a.creds # e.s.creds THEN {"Creds:" \o c.k} ELSE {})
 \cup (IF res = "ok" /\ a.accts # e.s.accts THEN {"Accts:" \o c.k} ELSE {})
-\cup (IF res = "ok" /\ a.mboxes # e.s.mboxes THEN {"Mboxes:" \o c.k} ELSE {})
+\cup (IF res = "ok" /\ ~MatchMboxes(b.mboxes, e.s.mboxes, a.mboxes) THEN {"Mboxes:" \o c.k} ELSE {})
 \cup (IF res = "ok" /\ a.msgs # e.s.msgs THEN {"Msgs:" \o c.k} ELSE {})
 \cup (IF c.k = "AcctCreate" /\ res = "ok" /\ c.sp \notin a.reach THEN {"CreatedAccountUnreachable"} ELSE {})
 \cup (IF c.k = "AcctCreate" /\ res = "ok" /\ ~Fresh(c, b, a) THEN {"NewAccountNotEmpty"} ELSE {})
